@@ -35,7 +35,7 @@ Theorem reject_macro_redefined f s v :
   ctype s = TT_DEFINE -> ctype (next s) = TT_NAME ->
   let s2 := next (next s) in
   (routine_start s2) = false ->
-  get_macro s2 (ctext (next s)) = Some v ->
+  global_macro s2 (ctext (next s)) = Some v ->
   p_command (S f) s = PErr (cline s2).
 Proof.
   intros Ht Hn s2 Hr Hm. cbn [p_command]. rewrite Ht. cbn [token_type_eqb token_type_beq]. cbv zeta.
@@ -62,7 +62,7 @@ Theorem reject_macro_redefined_as_routine f s v :
   ctype s = TT_DEFINE -> ctype (next s) = TT_NAME ->
   let s2 := next (next s) in
   (routine_start s2) = true ->
-  get_macro s2 (ctext (next s)) = Some v ->
+  global_macro s2 (ctext (next s)) = Some v ->
   p_command (S f) s = PErr (cline s2).
 Proof.
   intros Ht Hn s2 Hr Hm. cbn [p_command]. rewrite Ht. cbn [token_type_eqb token_type_beq]. cbv zeta.
@@ -80,7 +80,7 @@ Proof.
   unfold is_type at 1. rewrite Hn. cbn [token_type_eqb token_type_beq].
   unfold s2 in *. rewrite Hd.
   match goal with |- (if ?c then _ else _) = _ => destruct c end; [reflexivity|].
-  destruct (get_macro _ _); reflexivity.
+  destruct (global_macro _ _); reflexivity.
 Qed.
 
 (* whole texts, one per documented rule (the model evaluated on concrete scripts) *)
@@ -99,7 +99,8 @@ Theorem reject_undefined_name f s :
 Proof.
   intros Ht Hs Hg. cbn [p_rvalue]. unfold is_mark, is_type. rewrite Ht. cbn [token_type_eqb token_type_beq andb]. cbv zeta.
   assert (Hc : current_constant s = inr true).
-  { unfold current_constant. rewrite Ht. cbn [token_type_eqb token_type_beq]. unfold get_macro. rewrite Hg. reflexivity. }
+  { unfold current_constant. rewrite Ht. cbn [token_type_eqb token_type_beq]. unfold get_macro, global_macro. rewrite Hg.
+    destruct (st_get (p_locals s) (t_text (cur s))); reflexivity. }
   rewrite Hc, Ht. cbn [token_type_eqb token_type_beq]. unfold is_var. rewrite Hs. reflexivity.
 Qed.
 
